@@ -66,3 +66,24 @@ func VerifStubBinaryWrite(w io.Writer, order binary.ByteOrder, data any) error {
 	_, err := w.Write(buf[:])
 	return err
 }
+
+// VerifIsRegistered reports whether a receiver is registered for (protocol id, role).
+func VerifIsRegistered(m *Muxer, id uint16, role ProtocolRole) bool {
+	r, ok := m.protocolReceivers[id]
+	if !ok {
+		return false
+	}
+	_, ok = r[role]
+	return ok
+}
+
+// VerifRegisteredIds lists the protocol numbers that have at least one receiver.
+func VerifRegisteredIds(m *Muxer) []uint16 {
+	var out []uint16
+	for id, r := range m.protocolReceivers {
+		if len(r) > 0 {
+			out = append(out, id)
+		}
+	}
+	return out
+}
